@@ -365,8 +365,8 @@ func c19CheckPreds(ctx *Ctx, res *Result, ps, qs []string, nontrivial *c19Seen) 
 					}
 					if ib != mb {
 						res.AddViolation(Violation{Key: "C19/correspondence/" + c19PredNames[k],
-							What: fmt.Sprintf("NewPath(%q).%s(%q) = %v, model %v", p, c19PredNames[k], s, ib, mb),
-							Size: len(p) + len(s) + 1,
+							What:   fmt.Sprintf("NewPath(%q).%s(%q) = %v, model %v", p, c19PredNames[k], s, ib, mb),
+							Size:   len(p) + len(s) + 1,
 							Replay: merge(rep, map[string]any{"fn": c19PredNames[k], "impl": ib, "model": mb, "broken": "correspondence " + c19PredNames[k] + " = Model.Paths"})})
 					}
 				}
